@@ -281,10 +281,60 @@ static void one_run(const char* bn, void* key[2], bool expect_abort_possible, mo
 #endif
 }
 
+// The transition state belongs to the sandbox object: set once, it is what every notification of every later crossing
+// carries, also in later incarnations of the object (destroy_sandbox / create_sandbox), until the application sets another.
+static uint64_t n_incarnation_ok = 0;
+template<typename B, int Slot>
+static tainted<long, B> leaf_cb(rlbox_sandbox<B>&, tainted<int, B>) { return 1; }
+template<typename B>
+static void incarnations(const char* bn)
+{
+  static char once_state;
+  rlbox_sandbox<B> c;
+  be::BT<B>::create(c, 0);
+  c.set_transition_state(&once_state);
+  for (int inc = 0; inc < 4; inc++) {
+    mon::ctx("%s/incarnations | transition state set once, incarnation %d of the sandbox object", bn, inc);
+    if (inc) {
+      c.destroy_sandbox();
+      be::BT<B>::create(c, inc & 1);
+    }
+    auto cbk = c.register_callback(leaf_cb<B, 7>);
+    g_inv.clear(); g_cb.clear();
+    g_inv.push_back({ 0, { 0, 1 } });
+    g_cb.push_back({}); g_cb.push_back({});
+    g_abort_phase = P_NONE; g_abort_at = -1;
+    c19::trace.clear();
+    be::BT<B>::template invoke<int(long (*)(int), long)>(c, "run_node", cbk, 0L);
+    mon::evals();
+    size_t want = 0;
+#ifdef HOOK_IN
+    want += 3;
+#endif
+#ifdef HOOK_OUT
+    want += 3;
+#endif
+    bool ok = c19::trace.size() == want;
+    for (auto& e : c19::trace) ok = ok && e.state == &once_state;
+    if (!ok) {
+      std::string got;
+      for (auto& e : c19::trace) got += mon::fmt("%s(%s,%s) ", e.in ? "IN" : "OUT", e.kind == 0 ? "INV" : "CB", e.state == &once_state ? "state" : (e.state ? "OTHER" : "null"));
+      report(bn, "incarnations", "notification-without-the-sandbox-state", mon::fmt("incarnation %d: %zu notifications (expected %zu): %s", inc, c19::trace.size(), want, got.c_str()));
+      return;
+    }
+    n_incarnation_ok++;
+#ifdef HOOK_TIME
+    c.process_and_get_transition_times().clear();
+#endif
+  }
+  c.destroy_sandbox();
+}
+
 template<typename B>
 static void run_backend(mon::Rng& rng)
 {
   const char* bn = be::BT<B>::name();
+  incarnations<B>(bn);
   rlbox_sandbox<B> a, b;
   be::BT<B>::create(a, 0);
   be::BT<B>::create(b, 1);
@@ -341,6 +391,7 @@ int main(int argc, char** argv)
   mon::hit("trace-equals-call-tree", n_trace_ok);
   mon::hit("abort-injected-runs", n_abort_runs);
   mon::hit("timing-records-exact", n_timing_ok);
+  mon::hit("state-carried-across-incarnations", n_incarnation_ok);
   mon::hit("aborts-caught-inside-a-callback-and-execution-continued", n_caught);
   mon::hit("invocations-made-from-a-destructor-while-an-abort-unwinds", n_dtor_unwind);
   mon::extra_num("call_trees", n_trees);
